@@ -211,4 +211,8 @@ def guards_facts(g, pos):
         if p != pos and g.before_on_all_paths(p, pos):
             for c, pol in cg:
                 out += facts_of(g.f, c, pol)
+    # a position only reachable through `case K:` of a switch on E is guarded by E == K (an if-chain spelled as a switch)
+    for sc, label, blk in g.switch_cases_at(pos):
+        if sc is not None and label is not None and label.get("k") == "CaseStmt" and label.get("c") and facts.cval(label["c"][0]) is not None:
+            out.append(("==", sc, label["c"][0]))
     return out
